@@ -3,6 +3,7 @@ import ast
 import itertools
 
 from common import S, enc_jv, run_batch, unS, EXN_CODE
+from common import corr_kind
 from world import base_case, run_cases, describe, out_of_model, agree
 from c04 import enc_parts
 
@@ -74,7 +75,7 @@ def gen_case(rng):
     if rng.random() < 0.5:
         parts = [('lit', rhs)]
     else:
-        key = rng.choice(['t', 'u'])
+        key = rng.choice(['t', 'u', 't', 'a-b', 'x:y', 'k/1', 'x@y', 'sp ace', 'é'])
         parts = [('hole', key)]
         if rng.random() < 0.85:
             # the target holds the value itself (str() is applied by the substitution)
@@ -129,6 +130,11 @@ def run(run, binfo):
     n = 4000 if tier == 'quick' else 80000
     gens = [gen_case(rng) for _ in range(n)]
     gens += list(literal_scope())
+    # a left side that differs from a registered kind name only by letter case is a credential path like any other
+    for kind in ('Role', 'ROLE', 'Rule', 'RULE', 'Http', 'rOLE'):
+        for rhs in ('admin', 'x', 'never'):
+            for creds in ({kind: rhs}, {kind: 'other', 'roles': [rhs]}, {'roles': [rhs]}, {kind: [rhs, 'zz']}, {}):
+                gens.append((kind, [('lit', rhs)], {}, creds))
     ss = list(small_scope())
     if tier == 'quick':
         ss = ss[::5]
@@ -169,7 +175,7 @@ def run(run, binfo):
     if bad_corr and not run.violations:
         c, m, i = bad_corr[0]
         run.violation('correspondence:S3', 'model and implementation disagree on a generic check',
-                      {'kind': 'broken-obligation', 'obligation': 'correspondence suite S3 (generic check)',
+                      {'kind': corr_kind(m), 'oracle': 'the Coq model, for which the property is proved', 'obligation': 'correspondence suite S3 (generic check)',
                        'input': describe(c), 'model': m, 'observed': i, 'count': len(bad_corr)})
     run.rule = ('%d generated (check, target, credentials): left side from %d literals (both quote styles, ints, floats, '
                 'booleans, None, tuples, ...) or dotted paths of depth 1-4; right side literal or placeholder; nested random '
